@@ -3,7 +3,7 @@
    the same times and update the same devices with equivalent inputs. *)
 From TV Require Import Base Model.Wiring Model.Ticker Model.Component Model.Sim Model.SimTime Model.Inline Model.NSim
   Proofs.WiringP Proofs.SimP Proofs.NonInterfP Proofs.FrameP Proofs.ExtentP Proofs.LatestP Proofs.EqvP
-  Proofs.NonInterfLoopP Proofs.WakeWfP Proofs.InlineP.
+  Proofs.NonInterfLoopP Proofs.WakeWfP Proofs.ParDevP Proofs.InlineP.
 Open Scope Z_scope.
 
 Lemma memb_keys_lookup {A} k (l : list (positive * A)) :
@@ -191,6 +191,8 @@ Hypothesis Hsh : shape cfg c lvc pre inn post.
 Variable devf : devfun.
 Hypothesis Hdev_nd : forall c n t i, NoDup (keys (fst (devf c n t i))).
 Hypothesis Hdev_ext : forall c n t i i', NoDup (keys i) -> NoDup (keys i') -> eqv i i' -> devf c n t i = devf c n t i'.
+Variable f : nat.
+Hypothesis Hsib : sib_ok cfg (S f) c lvc pre inn post.
 Notation cfgF := (inline cfg c lvc).
 Notation allc_ := (allc pre inn post).
 Notation outs := (outs_ pre post).
@@ -204,16 +206,17 @@ Record B (sN sF : sstate) : Prop := {
   b_int : int_of sN lvc = [];
   b_tk : memb lvc (s_ticked sN) = true;
   b_wfN : wake_wf cfg sN;
-  b_wfF : wake_wf cfgF sF
+  b_wfF : wake_wf cfgF sF;
+  b_sub : SUB cfg pre post f sN sF
 }.
 
 Lemma keysN s : wake_wf cfg s -> forall k, In k (keys (wake_of s top)) -> k = c \/ In k outs.
 Proof.
   intros H k Hk. apply (proj2 (H top)) in Hk. rewrite (sh_top _ _ _ _ _ _ Hsh) in Hk. rewrite map_app in Hk. cbn [map fst] in Hk.
   unfold outs_. apply in_app_iff in Hk. destruct Hk as [Hk|[E|Hk]].
-  - right. apply in_app_iff. left. unfold dv in Hk. rewrite map_map in Hk. cbn [fst] in Hk. rewrite map_id in Hk. exact Hk.
+  - right. apply in_app_iff. left. unfold dk in Hk. rewrite map_map in Hk. cbn [fst] in Hk. rewrite map_id in Hk. exact Hk.
   - left. symmetry. exact E.
-  - right. apply in_app_iff. right. unfold dv in Hk. rewrite map_map in Hk. cbn [fst] in Hk. rewrite map_id in Hk. exact Hk.
+  - right. apply in_app_iff. right. unfold dk in Hk. rewrite map_map in Hk. cbn [fst] in Hk. rewrite map_id in Hk. exact Hk.
 Qed.
 
 Lemma keysI s : wake_wf cfg s -> forall k, In k (keys (wake_of s lvc)) -> In k inn.
@@ -225,7 +228,7 @@ Qed.
 Lemma keysF s : wake_wf cfgF s -> forall k, In k (keys (wake_of s top)) -> In k outs \/ In k inn.
 Proof.
   intros H k Hk. apply (proj2 (H top)) in Hk. rewrite (inline_top_order _ _ _ _ _ _ Hsh) in Hk.
-  rewrite !map_app in Hk. unfold dv in Hk. rewrite !map_map in Hk. cbn [fst] in Hk. rewrite !map_id in Hk.
+  rewrite !map_app in Hk. unfold dv, dk in Hk. rewrite !map_map in Hk. cbn [fst] in Hk. rewrite !map_id in Hk.
   unfold outs_. apply in_app_iff in Hk. destruct Hk as [Hk|Hk]; [left; apply in_app_iff; left; exact Hk|].
   apply in_app_iff in Hk. destruct Hk as [Hk|Hk]; [right; exact Hk | left; apply in_app_iff; right; exact Hk].
 Qed.
@@ -234,7 +237,7 @@ Lemma obs_rel_app o1 o1' o2 o2' : obs_rel o1 o1' -> obs_rel o2 o2' -> obs_rel (o
 Proof. apply Forall2_app. Qed.
 
 (* one master tick on both sides *)
-Lemma master_tick f sN sF : B sN sF ->
+Lemma master_tick sN sF : B sN sF ->
   match first_wakeups (wake_of sN top), first_wakeups (wake_of sF top) with
   | None, None => True
   | Some (m, rN), Some (m', rF) =>
@@ -271,16 +274,19 @@ Proof.
     destruct (nd_facts _ _ _ _ _ _ Hsh) as [_ [He _]].
     destruct (Pos.eqb_spec d ext_id) as [E|_]; [exfalso; apply He; subst d; apply in_app_iff; right; apply in_app_iff; left; exact Hd|].
     rewrite !orb_false_r. reflexivity. }
-  pose proof (tick_inline cfg c lvc pre inn post Hsh devf Hdev_nd Hdev_ext m f rN rF s1N s1F) as T.
+  pose proof (tick_inline cfg c lvc pre inn post Hsh devf Hdev_nd Hdev_ext m f Hsib rN rF s1N s1F) as T.
   unfold tick_level.
   assert (T' := T (b_dev _ _ HB)). clear T. rewrite EwN, EwF, EwI in T'. unfold notdue in T'.
-  specialize (T' A7 A1 Erc A4 A5 A6).
+  assert (Hsub1 : SUB cfg pre post f s1N s1F).
+  { intros y ly Hy Hk. destruct (Hsib y ly Hy Hk) as [Htop _].
+    unfold s1N, s1F. apply (SR_set_wake_other _ _ sN sF top _ _ Htop (b_sub _ _ HB y ly Hy Hk)). }
+  specialize (T' A7 A1 Erc A4 A5 A6 Hsub1).
   pose proof (tick_with_wf cfg devf (on_tick_level cfg devf (S f)) top m rN [] s1N (on_tick_level_wf cfg devf (S f)) HwfN1) as WN2.
   pose proof (tick_with_wf cfgF devf (on_tick_level cfgF devf (S f)) top m rF [] s1F (on_tick_level_wf cfgF devf (S f)) HwfF1) as WF2.
   destruct (tick_with cfg devf (on_tick_level cfg devf (S f)) top m rN [] s1N) as [[sN2 outN] oN].
   destruct (tick_with cfgF devf (on_tick_level cfgF devf (S f)) top m rF [] s1F) as [[sF2 outF] oF].
   cbn [fst] in WN2, WF2.
-  destruct T' as [T1 [T2 [T3 [T4 [tk [T5 [T6 [T7 [T8 [T9 T10]]]]]]]]]].
+  destruct T' as [T1 [T2 [T3 [T4 [TS [tk [T5 [T6 [T7 [T8 [T9 T10]]]]]]]]]]].
   assert (Hwc : lookup c wN = min_wake wI) by exact (b_wc _ _ HB).
   split; [|exact T2]. constructor; try assumption.
   - (* the system's entry in the top-level table is the earliest inner wakeup *)
@@ -299,14 +305,14 @@ Proof.
   - destruct tk; [apply T6; reflexivity|]. destruct (T7 eq_refl) as [_ [E2 _]]. rewrite E2. exact (b_tk _ _ HB).
 Qed.
 
-Theorem loop_inline f horizon : forall n sN sF obN obF,
+Theorem loop_inline horizon : forall n sN sF obN obF,
   B sN sF -> obs_rel obN obF ->
   let '(sN', obN', doneN) := sim_loop cfg devf n (S f) horizon sN obN in
   let '(sF', obF', doneF) := sim_loop cfgF devf n (S f) horizon sF obF in
   B sN' sF' /\ obs_rel obN' obF' /\ doneN = doneF.
 Proof.
   induction n as [|n IH]; intros sN sF obN obF HB Ho; cbn [sim_loop]; [split; [exact HB | split; [exact Ho | reflexivity]]|].
-  pose proof (master_tick f sN sF HB) as T.
+  pose proof (master_tick sN sF HB) as T.
   destruct (first_wakeups (wake_of sN top)) as [[m rN]|], (first_wakeups (wake_of sF top)) as [[m' rF]|];
     try contradiction; [|split; [exact HB | split; [exact Ho | reflexivity]]].
   destruct T as [E T]. subst m'. destruct (Z.leb m horizon); [|split; [exact HB | split; [exact Ho | reflexivity]]].
@@ -346,9 +352,11 @@ Proof.
     subst k. rewrite (inline_top_order _ _ _ _ _ _ Hsh), !map_app. unfold dv. rewrite !map_map. cbn [fst]. rewrite !map_id.
     unfold outs_ in Hy. apply in_app_iff in Hy. apply in_app_iff.
     destruct Hy as [Hy|Hy]; [left; exact Hy | right; apply in_app_iff; right; exact Hy].
+  - intros y' ly Hy' Hk. destruct (Hsib y' ly Hy' Hk) as [Htop _].
+    apply SR_set_wake_other; [exact Htop | apply (b_sub _ _ HB y' ly Hy' Hk)].
 Qed.
 
-Theorem script_inline f : forall script sN sF obN obF,
+Theorem script_inline : forall script sN sF obN obF,
   outer_script script -> B sN sF -> obs_rel obN obF ->
   let '(sN', obN') := sim_script cfg devf (S f) script sN obN in
   let '(sF', obF') := sim_script cfgF devf (S f) script sF obF in
@@ -357,7 +365,7 @@ Proof.
   induction script as [|[|y w] r IH]; intros sN sF obN obF Hok HB Ho; cbn [sim_script].
   - split; assumption.
   - assert (Hok' : outer_script r) by (intros y w Hi; apply (Hok y w); right; exact Hi).
-    pose proof (master_tick f sN sF HB) as T.
+    pose proof (master_tick sN sF HB) as T.
     destruct (first_wakeups (wake_of sN top)) as [[m rN]|], (first_wakeups (wake_of sF top)) as [[m' rF]|]; try contradiction;
       [|apply IH; assumption].
     destruct T as [E T]. subst m'. cbv zeta in T.
@@ -370,9 +378,11 @@ Qed.
 
 Lemma map_fst_dv l : map fst (map dv l) = l.
 Proof. unfold dv. rewrite map_map. cbn [fst]. apply map_id. Qed.
+Lemma map_fst_dk l : map fst (map (dk cfg) l) = l.
+Proof. unfold dk. rewrite map_map. cbn [fst]. apply map_id. Qed.
 
 (* the initial tick of every component establishes the relation *)
-Lemma initial_inline f initial :
+Lemma initial_inline initial :
   let rN := map fst (l_order (level_of cfg top)) in
   let rF := map fst (l_order (level_of cfgF top)) in
   let s0 := set_wake s_init top [] in
@@ -386,16 +396,16 @@ Proof.
   set (rN := map fst (l_order (level_of cfg top))). set (rF := map fst (l_order (level_of cfgF top))).
   set (s0 := set_wake s_init top []).
   assert (ErN : rN = pre ++ c :: post).
-  { unfold rN. rewrite (sh_top _ _ _ _ _ _ Hsh), map_app. cbn [map fst]. rewrite !map_fst_dv. reflexivity. }
+  { unfold rN. rewrite (sh_top _ _ _ _ _ _ Hsh), map_app. cbn [map fst]. rewrite !map_fst_dk. reflexivity. }
   assert (ErF : rF = pre ++ inn ++ post).
-  { unfold rF. rewrite (inline_top_order _ _ _ _ _ _ Hsh), !map_app, !map_fst_dv. reflexivity. }
+  { unfold rF. rewrite (inline_top_order _ _ _ _ _ _ Hsh), !map_app, !map_fst_dk, map_fst_dv. reflexivity. }
   assert (Ew0 : forall lv, wake_of s0 lv = []).
   { intros lv. unfold s0, wake_of, set_wake. cbn [s_wake s_init upd get_d lookup]. unfold get_d. cbn [lookup]. destruct (Pos.eqb lv top); reflexivity. }
   assert (Hwf0N : wake_wf cfg (log_tick s0 top initial rN)).
   { intros lv. change (wake_of (log_tick s0 top initial rN) lv) with (wake_of s0 lv). rewrite Ew0. split; [constructor | intros k []]. }
   assert (Hwf0F : wake_wf cfgF (log_tick s0 top initial rF)).
   { intros lv. change (wake_of (log_tick s0 top initial rF) lv) with (wake_of s0 lv). rewrite Ew0. split; [constructor | intros k []]. }
-  pose proof (tick_inline cfg c lvc pre inn post Hsh devf Hdev_nd Hdev_ext initial f rN rF
+  pose proof (tick_inline cfg c lvc pre inn post Hsh devf Hdev_nd Hdev_ext initial f Hsib rN rF
                 (log_tick s0 top initial rN) (log_tick s0 top initial rF)) as T.
   assert (HcN : memb c rN = true) by (apply memb_In; rewrite ErN; apply in_app_iff; right; left; reflexivity).
   change (wake_of (log_tick s0 top initial rN) top) with (wake_of s0 top) in T.
@@ -410,7 +420,7 @@ Proof.
     destruct (tick_with cfg devf (on_tick_level cfg devf (S f)) top initial rN [] (log_tick s0 top initial rN)) as [[sN2 outN] oN].
     destruct (tick_with cfgF devf (on_tick_level cfgF devf (S f)) top initial rF [] (log_tick s0 top initial rF)) as [[sF2 outF] oF].
     cbn [fst] in WN2, WF2.
-    destruct T2 as [T1 [T2 [T3 [T4 [tk [T5 [T6 [T7 [T8 [T9 T10]]]]]]]]]].
+    destruct T2 as [T1 [T2 [T3 [T4 [TS [tk [T5 [T6 [T7 [T8 [T9 T10]]]]]]]]]]].
     - intros z _. split; [reflexivity|]. split; [intros q; reflexivity|]. split; [reflexivity|]. split; constructor.
     - intros y _. reflexivity.
     - intros y Hy. assert (H1 : memb y rN = true).
@@ -425,6 +435,7 @@ Proof.
     - intros Hc. rewrite Hc in HcN. discriminate.
     - intros d _. reflexivity.
     - intros Hc. rewrite Hc in HcN. discriminate.
+    - intros y ly _ _. split; [intros z _; split; [reflexivity|]; split; [intros q; reflexivity|]; split; [reflexivity|]; split; constructor | intros l _; repeat split; reflexivity].
     - specialize (T8 HcN). subst tk. split; [|exact T2]. constructor; try assumption.
       + rewrite T5. destruct (min_wake (wake_of sN2 lvc)); reflexivity.
       + apply T6. reflexivity. }
@@ -432,26 +443,26 @@ Proof.
 Qed.
 
 (* whole runs: the initial tick of every component, then the loop *)
-Theorem run_inline f n initial horizon :
+Theorem run_inline n initial horizon :
   let '(sN, obN, doneN) := sim_run cfg devf n (S f) initial horizon in
   let '(sF, obF, doneF) := sim_run cfgF devf n (S f) initial horizon in
   B sN sF /\ obs_rel obN obF /\ doneN = doneF.
 Proof.
-  unfold sim_run. pose proof (initial_inline f initial) as T. cbv zeta in T.
+  unfold sim_run. pose proof (initial_inline initial) as T. cbv zeta in T.
   destruct (tick_level cfg devf (S f) top initial _ [] _) as [[sN2 outN] oN].
   destruct (tick_level cfgF devf (S f) top initial _ [] _) as [[sF2 outF] oF].
-  destruct T as [HB Ho]. apply (loop_inline f horizon n sN2 sF2 oN oF HB Ho).
+  destruct T as [HB Ho]. apply (loop_inline horizon n sN2 sF2 oN oF HB Ho).
 Qed.
 
 (* the same for scripts with interrupts of the outer devices *)
-Theorem script_run_inline f initial script : outer_script script ->
+Theorem script_run_inline initial script : outer_script script ->
   let '(sN, obN) := sim_script_from_start cfg devf (S f) initial script in
   let '(sF, obF) := sim_script_from_start cfgF devf (S f) initial script in
   B sN sF /\ obs_rel obN obF.
 Proof.
-  intros Hok. unfold sim_script_from_start. pose proof (initial_inline f initial) as T. cbv zeta in T.
+  intros Hok. unfold sim_script_from_start. pose proof (initial_inline initial) as T. cbv zeta in T.
   destruct (tick_level cfg devf (S f) top initial _ [] _) as [[sN2 outN] oN].
   destruct (tick_level cfgF devf (S f) top initial _ [] _) as [[sF2 outF] oF].
-  destruct T as [HB Ho]. apply (script_inline f script sN2 sF2 oN oF Hok HB Ho).
+  destruct T as [HB Ho]. apply (script_inline script sN2 sF2 oN oF Hok HB Ho).
 Qed.
 End Loop.
